@@ -202,6 +202,16 @@ func (libSim) Gen(prop, tier string, r *rand.Rand) interface{} {
 			c.Ops = append(c.Ops, LibOp{Op: "abandon", NoClose: chance(r, 0.5)})
 		}
 	}
+	if prop == "C05" && c.Syncer == 0 && r.IntN(60) == 0 {
+		// a very long batch (about a megabyte of slot writes) that is never synced
+		a := l.Archs[0]
+		np := int(between(r, 88000, 100000))
+		op := LibOp{Op: "many", ID: 0}
+		for j := 0; j < np; j++ {
+			op.Pts = append(op.Pts, LibPt{Age: (int64(j) * a.S) % a.R(), V: FV(float64(j % 100))})
+		}
+		c.Ops = append(c.Ops, op)
+	}
 	return c
 }
 
@@ -408,7 +418,7 @@ func (libSim) Run(e *Env, ci interface{}) {
 		return
 	}
 	for _, op := range c.Ops {
-		if len(op.Pts) > 8000 || op.D < 0 || op.D > 4*400*86400 || op.ID < -1 || op.ID >= len(c.Layout.Archs) {
+		if len(op.Pts) > 120000 || op.D < 0 || op.D > 4*400*86400 || op.ID < -1 || op.ID >= len(c.Layout.Archs) {
 			e.Skip("invalid-case")
 			return
 		}
